@@ -24,3 +24,24 @@ Print Assumptions C16_alignment_changes_no_activity.
 Theorem C16_alignment_aligns : forall nw, stmt_consistent_aligns nw.
 Proof. exact consistent_aligns. Qed.
 Print Assumptions C16_alignment_aligns.
+
+(** "the returned schedule is the product of all pipeline stages", on the functional model of the pipeline: the final
+    schedule carries exactly the optimiser's cycles (same vehicle lists per type) and exactly the local-search
+    result's vehicles, formations, dummy tours, activities and start depots; the start schedule and every schedule the
+    local search passes through stay inside the histories for which the invariants are proved *)
+From RS Require Import SchedStruct SwapsStmts2 PipelineSched PipelineSchedFacts.
+Theorem C16_pipeline_product : forall nw, stmt_pipeline_product nw.
+Proof. exact pipeline_product. Qed.
+Print Assumptions C16_pipeline_product.
+Theorem C16_start_schedule_is_a_valid_history : forall nw, stmt_from_tours_wreachable nw.
+Proof. exact from_tours_wreachable. Qed.
+Print Assumptions C16_start_schedule_is_a_valid_history.
+Theorem C16_search_stays_in_valid_histories : forall nw, stmt_ls_path_wreachable nw.
+Proof. exact ls_path_wreachable. Qed.
+Print Assumptions C16_search_stays_in_valid_histories.
+Theorem C16_pipeline_result_valid : forall i perm nw, load i perm = Ok nw -> stmt_pipeline_valid nw.
+Proof. exact pipeline_valid_loaded. Qed.
+Print Assumptions C16_pipeline_result_valid.
+Theorem C16_pipeline_valid_needs_depot_table : ~ (forall nw, stmt_pipeline_valid nw).
+Proof. exact pipeline_valid_refuted. Qed.
+Print Assumptions C16_pipeline_valid_needs_depot_table.
